@@ -318,6 +318,7 @@ def run_cases(driver, cases, dim, real_t=np.float64):
     traces = []
     finals = []
     overlaps = []
+    impl_failure = None  # first concrete failing input found on the implementation (reference / frame)
     for c in cases:
         flat = expand_bufs(c["bufs"], dim)
         before = {n: np.array(a, copy=True) for n, a in flat.items()}
@@ -344,9 +345,9 @@ def run_cases(driver, cases, dim, real_t=np.float64):
                 with np.errstate(all="ignore"):
                     d = np.abs(got - e)
                 bad = ~(d <= 4096 * eps * scale)
-                if np.any(bad):
+                if np.any(bad) and impl_failure is None:
                     idx = tuple(int(i) for i in np.argwhere(bad)[0])
-                    return {"ok": False, "cases": len(traces), "samples": [], "worst_rel_err": float(np.nanmax(d) / scale),
+                    impl_failure = {"ok": False, "cases": len(traces), "samples": [], "worst_rel_err": float(np.nanmax(d) / scale),
                             "kernel_calls": 0, "name": "implementation vs independent reference",
                             "detail": f"{c['label']}: implementation differs from the documented operator in buffer {n} at {idx}: "
                                       f"got {got[idx]!r}, reference {e[idx]!r}",
@@ -355,11 +356,17 @@ def run_cases(driver, cases, dim, real_t=np.float64):
                                               "args": {k_: _argstr(v_) for k_, v_ in c["args"].items()},
                                               "inputs": {m: np.asarray(a).tolist() for m, a in before_named.items()}}}
         fr = check_frame(c, flat, before, list(zip(tr.lines, tr.kernel_writes)), dim)
-        if fr is not None:
-            return {"ok": False, "cases": len(traces), "samples": [], "worst_rel_err": 0.0, "kernel_calls": 0,
+        if fr is not None and impl_failure is None:
+            impl_failure = {"ok": False, "cases": len(traces), "samples": [], "worst_rel_err": 0.0, "kernel_calls": 0,
                     "detail": f"{c['label']}: {fr}", "failing_input": {"oracle": "frame", "case": c["label"], "what": fr,
                                                                         "args": {k_: _argstr(v_) for k_, v_ in c["args"].items()}}}
-    results = run_driver(driver, requests)
+    try:
+        results = run_driver(driver, requests)
+    except Exception as e:  # noqa: BLE001
+        if impl_failure is not None:
+            impl_failure["detail"] += f" (model driver unavailable: {str(e)[-300:]})"
+            return impl_failure
+        raise
     out = {"ok": True, "cases": len(cases), "samples": [], "worst_rel_err": 0.0, "kernel_calls": 0, "overlaps": overlaps}
     for c, tr, fin, (mcalls, mbufs) in zip(cases, traces, finals, results):
         out["kernel_calls"] += len(tr)
@@ -372,10 +379,18 @@ def run_cases(driver, cases, dim, real_t=np.float64):
             out["detail"] = f"{c['label']}: {d}"
             out["failing_case"] = {"label": c["label"], "prog": c["prog"],
                                    "args": {k: _argstr(v) for k, v in c["args"].items()}}
+            if impl_failure is not None:
+                out["detail"] += " || " + impl_failure["detail"]
+                out["failing_input"] = impl_failure["failing_input"]
             return out
+        if len(out["samples"]) < 3:
+            pass
         if len(out["samples"]) < 3:
             out["samples"].append({"case": c["label"], "prog": c["prog"],
                                    "args": {k: _argstr(v) for k, v in c["args"].items()},
                                    "trace_head": [f"{l['kid']} {l['region']} {l['binds']}" for l in tr[:3]],
                                    "kernel_calls": len(tr)})
+    if impl_failure is not None:
+        impl_failure["cases"] = len(cases)
+        return impl_failure
     return out
